@@ -177,7 +177,28 @@ def run(idx, rep, tier):
                     rep.decide(av in (-2, 0), "column-independence", f"{test_fn.short}:{name}", f"`{ast.unparse(call)[:60]}` reduces over axis {av}" + ("" if av in (-2, 0) else ": must be the row axis (-2)"),
                                detail="" if av in (-2, 0) else f"axis:{av}", locs=[idx.loc(test_fn.module, call)])
         else:
-            rep.undecided("stopping-test", "cg:cond", "no any()/all() conjunct over the residual found")
+            # a statistic of the batch in place of the per-column test: mean / sum / min / median of the residual norms against
+            # (a statistic of) the tolerance lets the fast columns hide a slow one -- that column is returned unconverged
+            agg = None
+            for c in conj:
+                if isinstance(c, ast.Compare) and len(c.ops) == 1 and isinstance(c.ops[0], (ast.Gt, ast.GtE, ast.Lt, ast.LtE)):
+                    for side in (c.left, c.comparators[0]):
+                        side = df.resolve_value(test_fn.node, side) if isinstance(side, ast.Name) else side
+                        nm = df.is_xnp_call(side) if isinstance(side, ast.Call) else None
+                        if nm is None and isinstance(side, ast.Call) and isinstance(side.func, ast.Attribute) and side.func.attr in ("mean", "sum", "min", "median") and not side.args:
+                            nm, inner = side.func.attr, side.func.value
+                        elif nm in ("mean", "sum", "min", "median", "average") and side.args:
+                            inner = side.args[0]
+                        else:
+                            continue
+                        if is_norm_value(idx, test_fn, inner):
+                            agg = (c, nm)
+            if agg is not None:
+                rep.refuted("stopping-test", "cg:cond", f"continues while `{ast.unparse(agg[0])}`: the {agg[1]} over the batch replaces the per-column test -- the loop must continue while ANY "
+                            "column's residual norm exceeds its tolerance; columns that converge early pull the statistic down and a slow column is returned above the tolerance",
+                            detail="quantifier", locs=[idx.loc(test_fn.module, test_fn.node)])
+            else:
+                rep.undecided("stopping-test", "cg:cond", "no any()/all() conjunct over the residual found")
     # ---- tolerance computed once, from the initial residual of the normalised system.  The threshold is whatever the stopping test
     # compares the residual norm with, traced from the test function through the loop condition into the routine; the caller's
     # tolerance is what the routine hands to the loop runner for reporting.  Neither is recognised by its name.
